@@ -478,3 +478,233 @@ def run(ctx):
     detrend(ctx)
     add_ops(ctx)
     ctx.flush()
+
+
+# ---- extras2 (harness extension hx_b): exact scaling of values and of time, documented defaults, containers, objects with a history,
+# ---- large detrending / filtering / add_* instances ------------------------------------------------------------------------------------------
+
+def _x2_ops(rng, dt):
+    """one random setting of every operation of the property"""
+    order = rng.randint(1, 4)
+    ftype, cut, _, _ = filt_setup(rng, dt)
+    return {'cut_off': cut, 'filter_order': order, 'remove_gibbs': rng.choice([None, 'start', 'end', 'mid']), 'poly': rng.randint(0, 4), 'width': rng.randint(1, 25)}
+
+
+def _x2_apply(sig, op, s, other=None):
+    if op == 'butter_pass':
+        sig.butter_pass(s['cut_off'], filter_order=s['filter_order'], remove_gibbs=s['remove_gibbs'])
+    elif op == 'remove_poly':
+        sig.remove_poly(s['poly'])
+    elif op == 'running_average':
+        sig.running_average(s['width'])
+    elif op == 'add_constant':
+        sig.add_constant(other)
+    elif op == 'add_series':
+        sig.add_series(other)
+    elif op == 'add_signal':
+        sig.add_signal(other)
+    return np.array(sig.values)
+
+
+def _x2_scale(ctx, cur):
+    """(2) every operation of the property is linear in the record: scaling the record (and the added constant / series / signal) by 2^k
+    scales the result by 2^k EXACTLY, incl. 2^+-600; the filter depends on cut_off*dt only: dt x 2^k with cut-offs x 2^-k gives the same
+    values; (5) objects with a history behave like fresh ones"""
+    import eqsig
+    from eqsig.fns import generic
+    from _hxb_common import same, light_history
+    rng = ctx.rng
+    for it in range(24 if ctx.tier == 'quick' else 240):
+        n = gen.log_int(rng, 30, 400)
+        dt = rng.choice([0.01, 0.005, 0.02, 0.013, 0.04])
+        kind, v = gen.any_record(rng, n, dt)
+        if it % 3 == 0:
+            v = v + rng.choice([5.0, -0.25]) * np.linspace(0, 1, n) ** rng.randint(0, 3)
+        s = _x2_ops(rng, dt)
+        c = rng.choice([0.5, -3.0, 1e-3])
+        w = gen.noise_record(rng, n)
+        inputs = {'values': v, 'dt': dt, **s, 'constant': c, 'series': w}
+        cur.clear()
+        cur.update(inputs)
+        ctx.hist('extras2/scale/' + kind)
+        ops = [('butter_pass', None), ('remove_poly', None), ('running_average', None), ('add_constant', c), ('add_series', w), ('add_signal', w)]
+        base = {}
+        for op, other in ops:
+            o = eqsig.Signal(w, dt) if op == 'add_signal' else other
+            fresh = _x2_apply(eqsig.Signal(v, dt), op, s, o)
+            base[op] = fresh
+            aged = _x2_apply(light_history(ctx, eqsig.AccSignal if it % 2 else eqsig.Signal, v, dt), op, s, o)
+            ctx.oracle('C17 %s on an object with a history == on a fresh object' % op, same(aged, fresh), {**inputs, 'op': op})
+            ctx.last_object_history = None
+        pa = generic.remove_poly(v, s['poly'])
+        ctx.oracle('C17.d object-level remove_poly == array-level fns.generic.remove_poly', same(pa, base['remove_poly']), inputs)
+        for k in gen.EXTREME_POW2:
+            f = 2.0 ** k
+            ctx.count_case(('x2s', k, v.tobytes(), dt, repr(s)), True)
+            sc = {**inputs, 'scale': '2**%d' % k}
+            with np.errstate(all='ignore'):
+                for op, other in ops:
+                    o = None if other is None else other * f
+                    if op == 'add_signal':
+                        o = eqsig.Signal(w * f, dt)
+                    r = call_impl(_x2_apply, eqsig.Signal(v * f, dt), op, s, o)
+                    ctx.oracle('C17 %s is linear: scaling the record%s by a power of two scales the result exactly' % (op, '' if other is None else ' and the operand'),
+                               r[0] == 'ok' and gen.scaled_exactly(r[1], base[op], f), {**sc, 'op': op}, detail=r if r[0] != 'ok' else None)
+                r = call_impl(generic.remove_poly, v * f, s['poly'])
+                ctx.oracle('C17.d array-level remove_poly is linear: scaling the record by a power of two scales the result exactly',
+                           r[0] == 'ok' and gen.scaled_exactly(r[1], pa, f), sc)
+                s2 = {**s, 'cut_off': [None if x is None else x / f for x in s['cut_off']]}
+                r = call_impl(_x2_apply, eqsig.Signal(v, dt * f), 'butter_pass', s2)
+                ctx.oracle('C17.c the filter depends on cut_off*dt only: time step x 2^k with cut-offs x 2^-k gives the same values', r[0] == 'ok' and same(r[1], base['butter_pass']),
+                           sc, detail=r if r[0] != 'ok' else None)
+
+
+def _x2_options(ctx, cur):
+    """(3) documented defaults of butter_pass (cut_off=(0.1, 15), filter_order=4, remove_gibbs=None, gibbs_extra=1, gibbs_range=50), of remove_poly
+    (poly_fit=0) and running_average (width=1); (4) array-level remove_poly for every container / dtype"""
+    import eqsig
+    from eqsig.fns import generic
+    from _hxb_common import same, close
+    rng = ctx.rng
+    for it in range(20 if ctx.tier == 'quick' else 200):
+        n = gen.log_int(rng, 60, 600)
+        dt = rng.choice([0.01, 0.005, 0.02])
+        v = gen.noise_record(rng, n) + rng.choice([0.0, 3.0])
+        inputs = {'values': v, 'dt': dt}
+        cur.clear()
+        cur.update(inputs)
+        ctx.hist('extras2/options')
+        ctx.count_case(('x2o', v.tobytes(), dt), True)
+
+        def out(f):
+            sg = eqsig.Signal(v, dt)
+            f(sg)
+            return np.array(sg.values)
+        gib = rng.choice(['start', 'end', 'mid'])
+        cut = [rng.uniform(0.2, 1.0), rng.uniform(5.0, 20.0)]
+        pairs = [('butter_pass()', lambda sg: sg.butter_pass(), lambda sg: sg.butter_pass((0.1, 15), filter_order=4, remove_gibbs=None, gibbs_extra=1, gibbs_range=50)),
+                 ('butter_pass(cut_off)', lambda sg: sg.butter_pass(cut), lambda sg: sg.butter_pass(cut_off=tuple(cut), filter_order=4, remove_gibbs=None)),
+                 ('butter_pass(cut_off, remove_gibbs=%r)' % gib, lambda sg: sg.butter_pass(cut, remove_gibbs=gib),
+                  lambda sg: sg.butter_pass(cut, filter_order=4, remove_gibbs=gib, gibbs_extra=1, gibbs_range=50)),
+                 ('remove_poly()', lambda sg: sg.remove_poly(), lambda sg: sg.remove_poly(poly_fit=0)),
+                 ('running_average()', lambda sg: sg.running_average(), lambda sg: sg.running_average(width=1))]
+        for nm, f, w in pairs:
+            g, want = call_impl(out, f), call_impl(out, w)
+            ctx.oracle('C17 documented defaults give the result of the explicit call: %s' % nm, g[0] == 'ok' and want[0] == 'ok' and same(g[1], want[1]), inputs,
+                       detail=None if g[0] == 'ok' else g)
+        ctx.oracle('C17.d remove_poly() (degree 0) subtracts the mean; C17.f running_average() (width 1) keeps every sample',
+                   close(out(lambda sg: sg.remove_poly()), v - np.mean(v), rtol=0, atol=1e-12 * float(np.max(np.abs(v)))) and same(out(lambda sg: sg.running_average()), v), inputs)
+        vi = gen.int_record(rng, n, -9, 9) + np.round(4 * np.linspace(0, 1, n))
+        deg = rng.randint(0, 4)
+        want = generic.remove_poly(vi, deg)
+        for lab, c in gen.container_variants(vi):
+            ctx.hist('extras2/container/' + lab)
+            snap = np.array(c)
+            g = call_impl(generic.remove_poly, c, deg)
+            ctx.oracle('C17.d array-level remove_poly does not depend on the container or dtype holding the series (1e-9 of the peak)', g[0] == 'ok' and
+                       close(g[1], want, rtol=0, atol=1e-9 * float(np.max(np.abs(vi)))), {'values': vi, 'poly_fit': deg, 'container': lab}, detail=None if g[0] == 'ok' else g)
+            ctx.oracle('C17.d array-level remove_poly leaves its input unchanged', same(np.array(c), snap) and np.array(c).dtype == snap.dtype, {'values': vi, 'poly_fit': deg, 'container': lab})
+            if isinstance(c, np.ndarray):
+                sg = eqsig.Signal(c, dt)
+                r = call_impl(lambda: sg.remove_poly(deg))
+                ctx.oracle('C17.d remove_poly does not depend on the dtype of the record the signal was built from (1e-9 of the peak)', r[0] == 'ok' and
+                           close(sg.values, want, rtol=0, atol=1e-9 * float(np.max(np.abs(vi)))), {'values': vi, 'poly_fit': deg, 'container': lab})
+
+
+def _x2_large(ctx, cur):
+    """(1) records of 20 000 - 70 000 samples: detrending (orthogonality of the residual to every monomial of degree <= k, idempotent, unaffected by an
+    added polynomial, object == array level), filtering (length, step, linearity, |H(f)|^2 on a long sinusoid), add_* (element-wise), all O(n)"""
+    import eqsig
+    from eqsig.fns import generic
+    from scipy.signal import butter, freqz
+    from _hxb_common import same, close, light_history
+    rng = ctx.rng
+    for n in ([rng.choice([20000, 32768, 32769]), rng.choice([50000, 65536, 70001])] if ctx.tier == 'quick' else [20000, 32768, 32769, 50000, 65536, 65537, 100000, 131072]):
+        seed = rng.randrange(2 ** 31)
+        g = np.random.default_rng(seed)
+        dt = rng.choice([0.01, 0.005, 0.02])
+        deg = rng.randint(0, 4)
+        x01 = np.linspace(0, 1.0, n)
+        trend = sum(rng.choice([-2.0, 0.5, 3.0]) * x01 ** p for p in range(deg + 1))
+        v = g.standard_normal(n) + trend
+        s = _x2_ops(rng, dt)
+        desc = {'generator': 'c17._x2_large: standard_normal(n) + polynomial trend of degree deg', 'n': n, 'numpy_seed': seed, 'dt': dt, 'deg': deg, **s}
+        cur.clear()
+        cur.update(desc)
+        ctx.hist('extras2/large')
+        ctx.count_case(('x2l', n, seed, dt, deg), True, sample=desc)
+        peak = float(np.max(np.abs(v)))
+        sig = light_history(ctx, eqsig.Signal, v, dt)
+        r = call_impl(lambda: sig.remove_poly(deg))
+        y = np.array(sig.values)
+        ok = r[0] == 'ok' and y.shape == (n,) and sig.dt == dt
+        ctx.oracle('C17.d (large) remove_poly keeps length and time step', ok, desc, detail=r if r[0] != 'ok' else None)
+        ctx.last_object_history = None
+        if ok:
+            mom = [abs(float(np.dot(y, x01 ** p))) / (n * peak) for p in range(deg + 1)]
+            ctx.oracle('C17.d (large) the detrended series is orthogonal to every monomial of degree <= k (its best-fit degree-k polynomial is zero; 1e-9 n peak)',
+                       max(mom) <= 1e-9, desc, detail={'moments/(n*peak)': mom})
+            ctx.oracle('C17.d (large) object-level remove_poly == array-level fns.generic.remove_poly', same(generic.remove_poly(v, deg), y), desc)
+            ctx.oracle('C17.d (large) detrending is idempotent (1e-9 of the peak)', close(generic.remove_poly(y, deg), y, rtol=0, atol=1e-9 * peak), desc)
+            extra = sum(rng.choice([-7.0, 1.5]) * x01 ** p for p in range(deg + 1))
+            ctx.oracle('C17.d (large) detrending is unaffected by adding a polynomial of degree <= k beforehand (1e-9 of the peak)',
+                       close(generic.remove_poly(v + extra, deg), y, rtol=0, atol=1e-9 * max(peak, float(np.max(np.abs(extra))))), desc)
+            with np.errstate(all='ignore'):
+                kk = rng.choice([600, -600])
+                ctx.oracle('C17.d (large) detrending scales exactly with the record (power of two)', gen.scaled_exactly(generic.remove_poly(v * 2.0 ** kk, deg), y, 2.0 ** kk), {**desc, 'k': kk})
+        # filtering
+        w = g.standard_normal(n)
+        outs = []
+        for rec in (v, w, 2.0 * v - 3.0 * w):
+            sg = eqsig.Signal(rec, dt)
+            r = call_impl(lambda: sg.butter_pass(s['cut_off'], filter_order=s['filter_order'], remove_gibbs=s['remove_gibbs']))
+            outs.append(np.array(sg.values) if r[0] == 'ok' else None)
+            ctx.oracle('C17.a (large) butter_pass preserves length and time step', r[0] == 'ok' and np.shape(sg.values) == (n,) and sg.dt == dt, desc, detail=r if r[0] != 'ok' else None)
+        if all(o is not None and o.shape == (n,) for o in outs):
+            scale = max(float(np.max(np.abs(outs[0]))), float(np.max(np.abs(outs[1]))), 1e-300)
+            ctx.oracle('C17.b (large) butter_pass is linear in the record (1e-9)', float(np.max(np.abs(outs[2] - (2.0 * outs[0] - 3.0 * outs[1])))) <= 1e-9 * 5 * scale, desc)
+            with np.errstate(all='ignore'):
+                kk = rng.choice([600, -600])
+                sg = eqsig.Signal(v * 2.0 ** kk, dt)
+                sg.butter_pass(s['cut_off'], filter_order=s['filter_order'], remove_gibbs=s['remove_gibbs'])
+                ctx.oracle('C17.b (large) butter_pass scales exactly with the record (power of two)', gen.scaled_exactly(sg.values, outs[0], 2.0 ** kk), {**desc, 'k': kk})
+        cuts = [c for c in s['cut_off'] if c is not None]
+        f0 = rng.choice([cuts[0] * rng.choice([0.5, 1.0, 2.0]), math.sqrt(cuts[0] * cuts[-1])])
+        f0 = min(max(f0, 80.0 / (n * dt)), 0.9 * 0.5 / dt)
+        if min(cuts) >= 80.0 / (n * dt):      # record much longer than the longest cut-off period
+            ph = rng.uniform(0, 6.28)
+            x = np.sin(2 * math.pi * f0 * dt * np.arange(n) + ph)
+            sg = eqsig.Signal(x, dt)
+            sg.butter_pass(s['cut_off'], filter_order=s['filter_order'], remove_gibbs=s['remove_gibbs'])
+            ftype = 'band' if len(cuts) == 2 else ('low' if s['cut_off'][0] is None else 'high')
+            wp = np.array(cuts) / (0.5 / dt)
+            b, a = butter(s['filter_order'], wp if len(wp) == 2 else wp[0], btype=ftype)
+            _, h = freqz(b, a, worN=[2 * math.pi * f0 * dt])
+            gain = abs(h[0]) ** 2
+            lo, hi = n // 4, 3 * n // 4
+            err = float(np.max(np.abs(np.asarray(sg.values)[lo:hi] - gain * x[lo:hi])))
+            ctx.oracle('C17.c (large) away from the ends a sinusoid comes out unshifted, scaled by |H(f)|^2 (middle half, 2 % of the amplitude)', err <= 0.02,
+                       {**desc, 'frequency': f0, 'phase': ph}, detail={'gain': float(gain), 'max_error': err})
+        # add_*: element-wise
+        for op, other, want in (('add_constant', 2.5, v + 2.5), ('add_series', w, v + w), ('add_signal', eqsig.Signal(w, dt), v + w), ('add_series', list(w), v + w)):
+            r = call_impl(_x2_apply, eqsig.Signal(v, dt), op, s, other)
+            ctx.oracle('C17.e (large) %s adds element-wise' % op, r[0] == 'ok' and same(r[1], want), desc, detail=r if r[0] != 'ok' else None)
+        for bad_other in (w[:-1], np.concatenate((w, [0.0]))):
+            r = call_impl(_x2_apply, eqsig.Signal(v, dt), 'add_series', s, bad_other)
+            ctx.oracle('C17.e (large) add_series rejects a series of another length (SignalProcessingError)', r == ('err', 'SignalProcessingError'), {**desc, 'len(series)': len(bad_other)}, detail=r[:1])
+        r = call_impl(_x2_apply, eqsig.Signal(v, dt), 'add_signal', s, eqsig.Signal(w, dt * (1 + 2.0 ** -40)))
+        ctx.oracle('C17.e (large) add_signal rejects a signal with another time step (SignalProcessingError), also when it differs by 2^-40 relative', r == ('err', 'SignalProcessingError'), desc, detail=r[:1])
+
+
+def extras2(ctx):
+    from _hxb_common import guarded_sections
+    guarded_sections(ctx, 'C17', [('scale', _x2_scale), ('options', _x2_options), ('large', _x2_large)])
+
+
+_run_main2 = run
+
+
+def run(ctx):
+    _run_main2(ctx)
+    extras2(ctx)
+    ctx.flush()
